@@ -107,3 +107,46 @@ Fixpoint sig_steps (univ : list skey) (steps : list istep) (ms : mstate) (acc : 
   end.
 Definition case_signature (c : icase) : N * N * N * N * N :=
   sig_steps (case_universe c) (ic_steps c) (m_init (ic_cfg c)) (0, 0, 0, 0, 0)%N.
+
+(* ------------------------------------------------------------------ refresh slot: observed schedules *)
+Record robs := {
+  ro_thread : nat;             (* which thread was released for one atomic operation *)
+  ro_flag : bool;              (* DnsCache.refreshing after the step *)
+  ro_done : bool;              (* the thread has returned *)
+  ro_res : option bool;        (* needRefresh of a lookup that has returned *)
+  ro_ev : option revent           (* what the step did, as seen from outside: a lookup told to refresh / a completion clearing the flag *)
+}.
+Record rcase := { rc_variant : option rvariant;   (* shape of the claim in the source; None = a shape the model does not have *)
+                  rc_flag0 : bool; rc_threads : list rpc; rc_steps : list robs }.
+
+Definition rpc_done (p : rpc) : bool := match p with LDone _ | CDone => true | _ => false end.
+Definition rpc_res (p : rpc) : option bool := match p with LDone r => Some r | _ => None end.
+Definition optb_eqb (a b : option bool) : bool :=
+  match a, b with Some x, Some y => Bool.eqb x y | None, None => true | _, _ => false end.
+Definition rev_eqb (a b : option revent) : bool :=
+  match a, b with Some EvClaim, Some EvClaim | Some EvClear, Some EvClear | None, None => true | _, _ => false end.
+
+Fixpoint rcheck_steps (v : rvariant) (s : rstate) (steps : list robs) (n : N) : list (N * N) :=
+  match steps with
+  | [] => []
+  | o :: rest =>
+      let '(s', e) := rsched_step v s (ro_thread o) in
+      let p := nth (ro_thread o) (r_pcs s') CDone in
+      (if Bool.eqb (ro_flag o) (r_flag s') && Bool.eqb (ro_done o) (rpc_done p)
+          && (if ro_done o then optb_eqb (ro_res o) (rpc_res p) else true) && rev_eqb (ro_ev o) e
+       then [] else [(n, 1%N)])
+      ++ rcheck_steps v s' rest (n + 1)%N
+  end.
+
+Definition rtrace (steps : list robs) : list revent := flat_map (fun o => match ro_ev o with Some e => [e] | None => [] end) steps.
+
+(* codes: 1 impl<>model at a step   2 impl<>spec: two lookups told to refresh with no completion between   3 model<>spec *)
+Definition rcheck_case (c : rcase) : list (N * N) :=
+  let s0 := {| r_flag := rc_flag0 c; r_pcs := rc_threads c |} in
+  (match rc_variant c with
+   | Some v =>
+       rcheck_steps v s0 (rc_steps c) 0%N
+       ++ (if one_claim_per_cycle (rc_flag0 c) (snd (rrun v s0 (map ro_thread (rc_steps c)))) then [] else [(0%N, 3%N)])
+   | None => []
+   end)
+  ++ (if one_claim_per_cycle (rc_flag0 c) (rtrace (rc_steps c)) then [] else [(0%N, 2%N)]).
